@@ -237,6 +237,7 @@ func tGen(seed int64) tHistory {
 }
 
 var tCounter int
+var tHung bool
 
 func tRun(h tHistory, dir string) (viol []tViolation) {
 	fail := func(clause, key, format string, a ...interface{}) {
@@ -329,7 +330,16 @@ func tRun(h tHistory, dir string) (viol []tViolation) {
 			break
 		}
 	}
-	conn.Close()
+	// a library call that does not return is a finding, and this process is done
+	closed := make(chan struct{})
+	go func() { conn.Close(); close(closed) }()
+	select {
+	case <-closed:
+	case <-time.After(20 * time.Second):
+		fail("transport", "close-did-not-return", "Connection.Close has not returned after 20 s")
+		tHung = true
+		return
+	}
 	if svc != nil {
 		svc.Shutdown()
 		select {
@@ -417,6 +427,9 @@ func TestVerifC03Transports(t *testing.T) {
 			break
 		}
 		one(tGen(spec.SeedBase*1000003 + spec.IndexFrom + i*stride))
+		if tHung {
+			break
+		}
 		if i%20 == 0 {
 			flush()
 		}
